@@ -118,7 +118,10 @@ pub fn schema_json(s: &RSchema, mut t: Option<&mut Tape>) -> J {
         for a in s.actions.iter().filter(|a| a.ns == ns) {
             let mut m = Map::new();
             if !a.member_of.is_empty() {
-                m.insert("memberOf".into(), J::Array(a.member_of.iter().map(|g| json!({"id": g})).collect()));
+                m.insert(
+                    "memberOf".into(),
+                    J::Array(a.member_of.iter().map(|g| if g.ty == a.ty() && !t.as_mut().map(|t| t.bool_p(1, 4)).unwrap_or(false) { json!({"id": g.id}) } else { json!({"id": g.id, "type": g.ty}) }).collect()),
+                );
             }
             if !(a.principals.is_empty() && a.resources.is_empty()) {
                 let mut ap = Map::new();
@@ -213,7 +216,10 @@ pub fn schema_cedar(s: &RSchema, mut t: Option<&mut Tape>) -> String {
         for a in s.actions.iter().filter(|a| a.ns == ns) {
             let mut line = format!("  action {}", cedar_ident_or_str(&a.id));
             if !a.member_of.is_empty() {
-                line.push_str(&format!(" in [{}]", a.member_of.iter().map(|g| cedar_ident_or_str(g)).collect::<Vec<_>>().join(", ")));
+                line.push_str(&format!(
+                    " in [{}]",
+                    a.member_of.iter().map(|g| if g.ty == a.ty() { cedar_ident_or_str(&g.id) } else { format!("{}::{}", g.ty, text::str_lit(&g.id, &mut text::Style::canonical())) }).collect::<Vec<_>>().join(", ")
+                ));
             }
             if !(a.principals.is_empty() && a.resources.is_empty()) {
                 let ps: Vec<String> = a.principals.iter().map(|p| rel_name(p, &ns, &mut t)).collect();
